@@ -77,6 +77,18 @@ pub fn gen_safety(r: &mut Rng, env_len: usize, has_tool: bool, has_base: bool, m
             fam = "overrides+J1".into();
         }
         s.special_distances = special;
+        // "nothing collides unless listed": never-colliding defaults with a few pairs switched on explicitly
+        if k == 4 && r.chance(0.4) {
+            s.to_robot_default = NEVER_COLLIDES;
+            if r.chance(0.5) { s.to_environment = NEVER_COLLIDES; }
+            let n2 = 1 + r.below(3);
+            for _ in 0..n2 {
+                let a = *r.pick(&ids); let b = *r.pick(&ids);
+                if a == b || s.special_distances.contains_key(&(a as u16, b as u16)) || s.special_distances.contains_key(&(b as u16, a as u16)) { continue; }
+                s.special_distances.insert((a as u16, b as u16), *r.pick(&[TOUCH_ONLY, 0.05, 0.45]));
+            }
+            fam = "never-by-default+listed".into();
+        }
     }
     (fam, s)
 }
